@@ -66,6 +66,29 @@ pub fn case_strategy(max_segs: usize) -> impl Strategy<Value = Case> {
 			}
 			bs.into_iter().map(Op::Block).collect::<Vec<_>>()
 		}),
+		// one NRD excess four or five times in a row on the best chain (at the closest legal spacing), then a fork
+		// from 1..6 blocks back whose first block carries it again: how far back the previous occurrence ON THAT
+		// FORK lies decides, after several occurrences have been rewound
+		2 => (1u8..=2, 4usize..=5, 1u8..=6, any::<u16>(), 0u8..=1).prop_map(|(rel, n_occ, d, pick, more)| {
+			let nrd_block = |parent: u8, pick: u16| {
+				let mut b = plain_block();
+				b.parent = parent;
+				b.txs = vec![RawTx { ins: vec![pick], outs: vec![RawOut { kind: 0, amt: 0, key: 2 }], fee: 1, kern: 4 + rel, zero_offset: false, chain_prev: false }];
+				b
+			};
+			let mut v = vec![];
+			for k in 0..n_occ {
+				v.push(Op::Block(nrd_block(0, pick.wrapping_add(k as u16 * 7919))));
+				if rel == 2 && k + 1 < n_occ {
+					v.push(Op::Block(plain_block()));
+				}
+			}
+			v.push(Op::Block(nrd_block(100 + d, pick ^ 0x5555)));
+			if more == 1 {
+				v.push(Op::Block(nrd_block(1, pick ^ 0x3333)));
+			}
+			v
+		}),
 		1 => Just(vec![Op::Reopen]),
 	];
 	(prop::collection::vec(seg, 3..=max_segs), prop::bool::weighted(0.7)).prop_map(|(segs, real)| Case {
